@@ -53,7 +53,7 @@ static PDU* catalogue(int id, vh::Rng& rng, Entry& e) {
     case 12: { e = E_DOT3; Dot3 d("00:11:22:33:44:55", "66:77:88:99:aa:bb"); LLC l(0x10, 0x20); l.type(LLC::SUPERVISORY); l.supervisory_function(LLC::RECEIVE_NOT_READY); l.receive_seq_number(3); return (d / l / raw(rng, 4)).clone(); }
     case 13: { e = E_DOT3; Dot3 d("00:11:22:33:44:55", "66:77:88:99:aa:bb"); LLC l(0x10, 0x20); l.type(LLC::UNNUMBERED); l.modifier_function(LLC::UI); return (d / l / raw(rng, 4)).clone(); }
     case 14: { e = E_SLL; SLL s; s.packet_type(0); s.lladdr_type(1); s.lladdr_len(6); s.address(HWAddress<8>("00:11:22:33:44:55:00:00")); return (s / ip0() / TCP(80, 1234) / raw(rng, 9)).clone(); }
-    case 15: { e = E_LOOP; Loopback l; l.family(2); return (l / ip0() / UDP(7, 7) / raw(rng, 3)).clone(); }
+    case 15: { e = E_LOOP; Loopback l;     /* family left to be derived from the inner layer */ return (l / ip0() / UDP(7, 7) / raw(rng, 3)).clone(); }
     case 16: { IPSecAH ah; ah.spi(0x11223344); ah.seq_number(5); ah.icv(std::vector<uint8_t>(12, 0x5a)); return (eth0() / ip0() / ah / UDP(500, 500) / raw(rng, 8)).clone(); }
     case 17: { IPSecESP esp; esp.spi(0x55667788); esp.seq_number(6); return (eth0() / ip0() / esp / raw(rng, 24)).clone(); }
     case 18: { ICMP ic(ICMP::DEST_UNREACHABLE); ic.code(3); IP q = ip0() / UDP(33434, 40000) / raw(rng, 8); std::vector<uint8_t> quoted = q.serialize(); return (eth0() / ip0() / ic / RawPDU(quoted.begin(), quoted.end())).clone(); }
